@@ -121,11 +121,13 @@ theorem cancelled_never_runs (cap : Nat) (es es' : List Ev) (s s' : LS) (h : (LS
               · rename_i t _
                 cases hs
                 refine ⟨rfl, ?_, hr⟩
-                show (upd (upd s.req t _) f _ r).noRun = true
+                show (upd (upd (upd s.req f _) t _) f _ r).noRun = true
                 rw [upd_other _ _ _ _ hrf]
                 by_cases hrt : r = t
-                · subst hrt; simp [hn]
-                · rw [upd_other _ _ _ _ hrt]; exact hn
+                · subst hrt
+                  simp only [upd_same]
+                  rw [upd_other _ _ _ _ hrf]; exact hn
+                · rw [upd_other _ _ _ _ hrt, upd_other _ _ _ _ hrf]; exact hn
           · cases hs
         | _ =>
           simp only [LS.step] at hs
